@@ -47,9 +47,27 @@ Theorem deleted_store_hidden :
       (snd (sstep body ntypes tup chg wreq wres qreq qres apply_write eval_query
               (srun body ntypes tup chg wreq wres qreq qres apply_write eval_query (sinit body tup chg)
                     (h1 ++ PDelete body wreq qreq id :: h2))
-              (PList body wreq qreq))) = false.
+              (PList body wreq qreq))) = false /\
+    (* ... nor under any combination of the IDs filter (the one access control uses) and the name filter *)
+    forall ids name,
+      listed body wres qres id
+        (snd (sstep body ntypes tup chg wreq wres qreq qres apply_write eval_query
+                (srun body ntypes tup chg wreq wres qreq qres apply_write eval_query (sinit body tup chg)
+                      (h1 ++ PDelete body wreq qreq id :: h2))
+                (PListF body wreq qreq ids name))) = false.
 Proof. exact StoresProofs.deleted_store_hidden. Qed.
 Print Assumptions deleted_store_hidden.
+
+(* The same for sqlite's store table (soft delete: deleted_at; every query carries
+   `deleted_at IS NULL`), for every history of store-table operations. *)
+Theorem sqlite_deleted_store_hidden :
+  forall (h1 h2 : list top) (id : bytes),
+    forallb (fun o => negb (tcreates id o)) h2 = true ->
+    let t := sql_trun [] (h1 ++ TDelete id :: h2) in
+    sql_get_store t id = None /\
+    forall ids name, existsb (fun p => beqb (fst p) id) (sql_list_stores t ids name) = false.
+Proof. exact StoresProofs.sqlite_deleted_store_hidden. Qed.
+Print Assumptions sqlite_deleted_store_hidden.
 
 (* Every keys.GetBuilder() call site of the source (regenerated on every run) is classified, and
    every constructor of a key of a cache shared between stores encodes the store id as a string
@@ -101,6 +119,17 @@ Example deleted_store_hidden_nonvacuous :
    QWrite tbody N tqres 3;
    QNotFound tbody N tqres; QStore tbody N tqres s2 [110]; QStores tbody N tqres [(s2, [110]); ([115; 51], [110])]].
 Proof. vm_compute. reflexivity. Qed.
+
+Example deleted_store_hidden_filters_nonvacuous :
+  let h := [TCreate s1 [110]; TCreate s2 [110]; TDelete s1; TCreate s1 [110]] in
+  map snd (sql_ttrace [] (h ++ [TList [s1] []; TList [s1; s2] [110]; TList [] [110]; TGet s1])) =
+    [TStore s1 [110]; TStore s2 [110]; TOk; TCollision;
+     TStores []; TStores [(s2, [110])]; TStores [(s2, [110])]; TNotFound] /\
+  map snd (t_strace [PCreate tbody twreq tqreq s1 [110]; PCreate tbody twreq tqreq s2 [110]; PDelete tbody twreq tqreq s1;
+                     PListF tbody twreq tqreq [s1] []; PListF tbody twreq tqreq [s2; s1; s2] [110]]) =
+    [QStore tbody N tqres s1 [110]; QStore tbody N tqres s2 [110]; QOk tbody N tqres;
+     QStores tbody N tqres []; QStores tbody N tqres [(s2, [110]); (s2, [110])]].
+Proof. vm_compute. split; reflexivity. Qed.
 
 Example store_in_every_key_nonvacuous :
   List.length c16_sites = 21%nat /\
